@@ -17,6 +17,7 @@ from .common import explore_paths, prem_of
 
 NS = z3.Function("new_state", z3.RealSort(), z3.RealSort(), z3.RealSort(), z3.RealSort())
 ER = z3.Function("error_estimate", z3.RealSort(), z3.RealSort(), z3.RealSort(), z3.RealSort())
+FT = z3.Function("f", z3.RealSort(), z3.RealSort(), z3.RealSort())  # time-dependent right-hand side
 FA = z3.Function("F_autonomous", z3.RealSort(), z3.RealSort())
 F2 = z3.Function("F", z3.RealSort(), z3.RealSort(), z3.RealSort())
 
@@ -147,7 +148,7 @@ def euler_loop_unit(which):
             def rhs(arr, t):
                 x = to_z3(arr.read((0,)))
                 rhs_log.append((x, t))
-                v = FA(x)
+                v = FT(x, to_z3(to_real(t)))
                 return fresh_array("rate", (1,), lambda idx: v)
 
             solver, info, sf, par = _solver(it, "pde.solvers.euler", "EulerSolver")
@@ -171,7 +172,7 @@ def euler_loop_unit(which):
                 x, rate = val(fr, "state_cur"), val(fr, "rate")
                 if x is None or rate is None:
                     return z3.BoolVal(False)
-                c = [steps >= 0, rate == FA(x)]  # the cached rate belongs to the current state (autonomous problems)
+                c = [steps >= 0, rate == FT(x, t)]  # the cached rate is the right-hand side at the current state AND the current time
                 g = ghost["iter"]
                 if g is None:
                     c.append(t < t1)
@@ -179,9 +180,9 @@ def euler_loop_unit(which):
                 else:
                     e = ghost["entry"]
                     dt = z3.If(z3.If(e["dt_opt"] <= t1 - e["t"], e["dt_opt"], t1 - e["t"]) >= par["dmin"], z3.If(e["dt_opt"] <= t1 - e["t"], e["dt_opt"], t1 - e["t"]), par["dmin"])
-                    mid = e["x"] + dt / 2 * FA(e["x"])
-                    small = mid + dt / 2 * FA(mid)
-                    large = e["x"] + dt * FA(e["x"])
+                    mid = e["x"] + dt / 2 * FT(e["x"], e["t"])
+                    small = mid + dt / 2 * FT(mid, e["t"] + dt / 2)
+                    large = e["x"] + dt * FT(e["x"], e["t"])
                     err = z3.If(large - small >= 0, large - small, small - large)
                     acc = err / par["tol"] <= 1
                     c += [x == z3.If(acc, small, e["x"]), t == z3.If(acc, e["t"] + dt, e["t"]), steps == z3.If(acc, e["steps"] + 1, e["steps"]), t < t1]
@@ -230,9 +231,9 @@ def euler_loop_unit(which):
                 U.prove(f"{nm}.iteration_ghost_recorded", P, z3.BoolVal(False))
                 continue
             dt = z3.If(z3.If(e["dt_opt"] <= t1 - e["t"], e["dt_opt"], t1 - e["t"]) >= par["dmin"], z3.If(e["dt_opt"] <= t1 - e["t"], e["dt_opt"], t1 - e["t"]), par["dmin"])
-            mid = e["x"] + dt / 2 * FA(e["x"])
-            small = mid + dt / 2 * FA(mid)
-            large = e["x"] + dt * FA(e["x"])
+            mid = e["x"] + dt / 2 * FT(e["x"], e["t"])
+            small = mid + dt / 2 * FT(mid, e["t"] + dt / 2)
+            large = e["x"] + dt * FT(e["x"], e["t"])
             err = z3.If(large - small >= 0, large - small, small - large)
             U.prove(f"{nm}.ends_at_or_after_t_end", P, r >= t1)
             U.prove(f"{nm}.last_step_accepted_with_step_doubling_error<=tolerance", P, err <= par["tol"])
@@ -240,7 +241,7 @@ def euler_loop_unit(which):
             U.prove(f"{nm}.ends_exactly_at_t_end_unless_gap_below_dt_min", P, z3.Or(r == t1, z3.And(t1 - e["t"] < par["dmin"], r - t1 < par["dmin"])))
             U.prove(f"{nm}.info_steps", P, to_z3(info["steps"]) == par["s0"] + e["steps"] + 1)
         U.prove(f"euler_adaptive[{which}].has_return_path", [], z3.BoolVal(n_ret >= 1))
-        U.assume_note("Euler adaptive loop: autonomous right-hand side (the statement restricts the adaptive clause to autonomous problems; the code evaluates the new rate at the old time)")
+        U.assume_note("Euler adaptive loop: arbitrary time-dependent right-hand side f(u, t); loop invariant: the rate carried into an iteration is f(state, t) at the current time (stage times of the step-doubling scheme: t, t + dt/2, and t + dt for the rate that is reused by the next step)")
 
     return unit
 
